@@ -13,7 +13,7 @@ EXTRA = {'C04-A': ['C18', 'C12'], 'C05-B': ['C11'], 'C10-A': ['C11'], 'C12-A': [
          'C12-B': ['C04'], 'C11-B': ['C08', 'C01'], 'C08-A': ['C01'], 'C08-B': ['C01'],
          'C01-B': ['C08'], 'C09-A': ['C04'], 'C09-B': ['C04'], 'C18-B': ['C06'], 'C03-A': ['C10'],
          'C13-A': ['C14'], 'C12-C': ['C06', 'C18'], 'C04-D': ['C18'], 'C07-C': ['C01'],
-         'C09-D': ['C04']}
+         'C09-D': ['C04'], 'C05-H': ['C09', 'C04'], 'C01-H': ['C08'], 'C08-H': ['C01']}
 
 
 def write_table(sd):
@@ -23,6 +23,7 @@ def write_table(sd):
         f.write('# Seeded defects: which quick checks catch which (seed 0)\n\n')
         f.write('| seeded defect | round | caught by | first monitor that fired | not caught by (also run) |\n|---|---|---|---|---|\n')
         n = c = 0
+        other = []
         for name in sorted(os.listdir(sd)):
             mp = os.path.join(sd, name, 'meta.json')
             if name.startswith('_') or not os.path.exists(mp):
@@ -31,10 +32,16 @@ def write_table(sd):
             caught, missed, mons = meta.get('caught_by', []), meta.get('missed_by', []), \
                 meta.get('first_monitor', {})
             n += 1
-            c += 1 if name.split('-')[0] in caught else 0
+            if name.split('-')[0] in caught:
+                c += 1
+            elif meta.get('outside_own_quantifier') and caught:
+                other.append(name + ' (' + ', '.join(caught) + ')')
             f.write(f"| {name} | {meta.get('round', 1)} | {', '.join(caught) or '**none**'} | "
                     f"{'; '.join(k + ': ' + v for k, v in mons.items())} | {', '.join(missed)} |\n")
         f.write(f'\n{c} of {n} filed defects are caught by the quick tier of the property they break.\n')
+        if other:
+            f.write('Caught only by other properties because their trigger lies outside the quantifier '
+                    'of the property they were written for: ' + '; '.join(other) + '\n')
         obs = os.path.join(sd, '_obsolete')
         if os.path.isdir(obs):
             f.write('\nNo longer evaluated (see their meta.json): ' + ', '.join(sorted(os.listdir(obs))) + '\n')
